@@ -146,6 +146,141 @@ theorem ArrR.extract {C : Ctx} {w : Nat} {xa xb : Array CellId} (h : ArrR C w xa
   simp only [Array.toList_extract, List.extract_eq_take_drop] at hc
   exact hl c (List.mem_of_mem_drop (List.mem_of_mem_take hc))
 
+/-! ### what the evaluation never touches -/
+
+structure Froz (C : Ctx) (hA hB : Heap) : Prop where
+  fzB : C.fz ≤ hB.cells.size
+  fzA : C.fzA ≤ hA.cells.size
+  aA : C.a0 ≤ hA.arrs.size
+  aB : C.a0 ≤ hB.arrs.size
+  oA : C.o0 ≤ hA.objs.size
+  oB : C.o0 ≤ hB.objs.size
+  cellB : ∀ i, i < C.fz → ¬ C.D i → hB.get i = C.snapB.get i
+  cellA : ∀ j, j < C.fzA → (∀ i, C.D i → C.σ i ≠ j) → hA.get j = C.snapA.get j
+  arrB : ∀ k, k < C.a0 → hB.arr k = C.snapB.arr k
+  arrA : ∀ k, k < C.a0 → hA.arr k = C.snapA.arr k
+  objB : ∀ k, k < C.o0 → hB.obj k = C.snapB.obj k
+  objA : ∀ k, k < C.o0 → hA.obj k = C.snapA.obj k
+
+namespace Froz
+
+variable {C : Ctx} {hA hB : Heap}
+
+theorem trivial (h1 : C.fz = 0) (h2 : C.fzA = 0) (h3 : C.a0 = 0) (h4 : C.o0 = 0) : Froz C hA hB := by
+  refine ⟨by rw [h1]; exact Nat.zero_le _, by rw [h2]; exact Nat.zero_le _, by rw [h3]; exact Nat.zero_le _,
+    by rw [h3]; exact Nat.zero_le _, by rw [h4]; exact Nat.zero_le _, by rw [h4]; exact Nat.zero_le _,
+    ?_, ?_, ?_, ?_, ?_, ?_⟩
+  · intro i hi; rw [h1] at hi; exact absurd hi (Nat.not_lt_zero _)
+  · intro i hi; rw [h2] at hi; exact absurd hi (Nat.not_lt_zero _)
+  · intro i hi; rw [h3] at hi; exact absurd hi (Nat.not_lt_zero _)
+  · intro i hi; rw [h3] at hi; exact absurd hi (Nat.not_lt_zero _)
+  · intro i hi; rw [h4] at hi; exact absurd hi (Nat.not_lt_zero _)
+  · intro i hi; rw [h4] at hi; exact absurd hi (Nat.not_lt_zero _)
+
+theorem alloc (f : Froz C hA hB) (va vb : Val) : Froz C (hA.alloc va).2 (hB.alloc vb).2 := by
+  refine ⟨?_, ?_, f.aA, f.aB, f.oA, f.oB, ?_, ?_, f.arrB, f.arrA, f.objB, f.objA⟩
+  · rw [size_alloc]; exact Nat.le_succ_of_le f.fzB
+  · rw [size_alloc]; exact Nat.le_succ_of_le f.fzA
+  · intro i hi hd
+    rw [get_alloc]
+    have : i ≠ hB.cells.size := Nat.ne_of_lt (Nat.lt_of_lt_of_le hi f.fzB)
+    simp only [this, ↓reduceIte]
+    exact f.cellB i hi hd
+  · intro j hj hd
+    rw [get_alloc]
+    have : j ≠ hA.cells.size := Nat.ne_of_lt (Nat.lt_of_lt_of_le hj f.fzA)
+    simp only [this, ↓reduceIte]
+    exact f.cellA j hj hd
+
+theorem set (f : Froz C hA hB) {b : CellId} (hb : C.D b) (va vb : Val) :
+    Froz C (hA.set (C.σ b) va) (hB.set b vb) := by
+  refine ⟨?_, ?_, f.aA, f.aB, f.oA, f.oB, ?_, ?_, f.arrB, f.arrA, f.objB, f.objA⟩
+  · rw [Heap.size_set]; exact f.fzB
+  · rw [Heap.size_set]; exact f.fzA
+  · intro i hi hd
+    rw [get_set]
+    have : i ≠ b := fun e => hd (e ▸ hb)
+    simp only [this, false_and, ↓reduceIte]
+    exact f.cellB i hi hd
+  · intro j hj hd
+    rw [get_set]
+    have : j ≠ C.σ b := fun e => hd b hb e.symm
+    simp only [this, false_and, ↓reduceIte]
+    exact f.cellA j hj hd
+
+theorem allocArr (f : Froz C hA hB) (xa xb : Array CellId) : Froz C (hA.allocArr xa).2 (hB.allocArr xb).2 := by
+  refine ⟨f.fzB, f.fzA, ?_, ?_, f.oA, f.oB, f.cellB, f.cellA, ?_, ?_, f.objB, f.objA⟩
+  · show C.a0 ≤ (hA.arrs.push xa).size
+    rw [Array.size_push]; exact Nat.le_succ_of_le f.aA
+  · show C.a0 ≤ (hB.arrs.push xb).size
+    rw [Array.size_push]; exact Nat.le_succ_of_le f.aB
+  · intro k hk
+    rw [arr_allocArr]
+    have : k ≠ hB.arrs.size := Nat.ne_of_lt (Nat.lt_of_lt_of_le hk f.aB)
+    simp only [this, ↓reduceIte]
+    exact f.arrB k hk
+  · intro k hk
+    rw [arr_allocArr]
+    have : k ≠ hA.arrs.size := Nat.ne_of_lt (Nat.lt_of_lt_of_le hk f.aA)
+    simp only [this, ↓reduceIte]
+    exact f.arrA k hk
+
+theorem allocObj (f : Froz C hA hB) (xa xb : List (Bytes × CellId)) :
+    Froz C (hA.allocObj xa).2 (hB.allocObj xb).2 := by
+  refine ⟨f.fzB, f.fzA, f.aA, f.aB, ?_, ?_, f.cellB, f.cellA, f.arrB, f.arrA, ?_, ?_⟩
+  · show C.o0 ≤ (hA.objs.push xa).size
+    rw [Array.size_push]; exact Nat.le_succ_of_le f.oA
+  · show C.o0 ≤ (hB.objs.push xb).size
+    rw [Array.size_push]; exact Nat.le_succ_of_le f.oB
+  · intro k hk
+    rw [obj_allocObj]
+    have : k ≠ hB.objs.size := Nat.ne_of_lt (Nat.lt_of_lt_of_le hk f.oB)
+    simp only [this, ↓reduceIte]
+    exact f.objB k hk
+  · intro k hk
+    rw [obj_allocObj]
+    have : k ≠ hA.objs.size := Nat.ne_of_lt (Nat.lt_of_lt_of_le hk f.oA)
+    simp only [this, ↓reduceIte]
+    exact f.objA k hk
+
+theorem setArr (f : Froz C hA hB) {a : ArrId} (ha : C.a0 ≤ a) (xa xb : Array CellId) :
+    Froz C (hA.setArr a xa) (hB.setArr a xb) := by
+  refine ⟨f.fzB, f.fzA, ?_, ?_, f.oA, f.oB, f.cellB, f.cellA, ?_, ?_, f.objB, f.objA⟩
+  · show C.a0 ≤ (hA.arrs.setIfInBounds a xa).size
+    rw [Array.size_setIfInBounds]; exact f.aA
+  · show C.a0 ≤ (hB.arrs.setIfInBounds a xb).size
+    rw [Array.size_setIfInBounds]; exact f.aB
+  · intro k hk
+    rw [arr_setArr]
+    have : k ≠ a := Nat.ne_of_lt (Nat.lt_of_lt_of_le hk ha)
+    simp only [this, false_and, ↓reduceIte]
+    exact f.arrB k hk
+  · intro k hk
+    rw [arr_setArr]
+    have : k ≠ a := Nat.ne_of_lt (Nat.lt_of_lt_of_le hk ha)
+    simp only [this, false_and, ↓reduceIte]
+    exact f.arrA k hk
+
+theorem setObj (f : Froz C hA hB) {o : ObjId} (ho : C.o0 ≤ o) (xa xb : List (Bytes × CellId)) :
+    Froz C (hA.setObj o xa) (hB.setObj o xb) := by
+  refine ⟨f.fzB, f.fzA, f.aA, f.aB, ?_, ?_, f.cellB, f.cellA, f.arrB, f.arrA, ?_, ?_⟩
+  · show C.o0 ≤ (hA.objs.setIfInBounds o xa).size
+    rw [Array.size_setIfInBounds]; exact f.oA
+  · show C.o0 ≤ (hB.objs.setIfInBounds o xb).size
+    rw [Array.size_setIfInBounds]; exact f.oB
+  · intro k hk
+    rw [obj_setObj]
+    have : k ≠ o := Nat.ne_of_lt (Nat.lt_of_lt_of_le hk ho)
+    simp only [this, false_and, ↓reduceIte]
+    exact f.objB k hk
+  · intro k hk
+    rw [obj_setObj]
+    have : k ≠ o := Nat.ne_of_lt (Nat.lt_of_lt_of_le hk ho)
+    simp only [this, false_and, ↓reduceIte]
+    exact f.objA k hk
+
+end Froz
+
 /-! ### the relation between the two heaps -/
 
 structure HR (C : Ctx) (hA hB : Heap) : Prop where
@@ -158,6 +293,7 @@ structure HR (C : Ctx) (hA hB : Heap) : Prop where
   cells : ∀ i, LiveC C hB.cells.size i → ValR C hB.cells.size (hA.get (C.σ i)) (hB.get i)
   arrs : ∀ k, C.a0 ≤ k → ArrR C hB.cells.size (hA.arr k) (hB.arr k)
   objs : ∀ k, C.o0 ≤ k → MemR C hB.cells.size (hA.obj k) (hB.obj k)
+  froz : Froz C hA hB
 
 variable {C : Ctx}
 
@@ -180,7 +316,7 @@ theorem alloc (wf : C.WF) {hA hB : Heap} (r : HR C hA hB) {w : Nat} {va vb : Val
   have hsA : (hA.alloc va).1 = C.σ (hB.alloc vb).1 := by
     show hA.cells.size = C.σ hB.cells.size
     rw [wf.shift _ r.mle, r.szc]
-  refine ⟨⟨?_, ?_, r.sza, r.ale, r.szo, r.ole, ?_, ?_, ?_⟩, hsA, wf.up _ r.mle, Nat.lt_succ_self _⟩
+  refine ⟨⟨?_, ?_, r.sza, r.ale, r.szo, r.ole, ?_, ?_, ?_, r.froz.alloc va vb⟩, hsA, wf.up _ r.mle, Nat.lt_succ_self _⟩
   · rw [size_alloc, size_alloc, r.szc]; omega
   · rw [size_alloc]; exact Nat.le_succ_of_le r.mle
   · intro i hi
@@ -211,7 +347,7 @@ theorem set (wf : C.WF) {hA hB : Heap} (r : HR C hA hB) {w w' : Nat} {a b : Cell
   obtain ⟨rfl, hb⟩ := hc
   have hb' : b < hB.cells.size := Nat.lt_of_lt_of_le hb.2 hw
   have ha' : C.σ b < hA.cells.size := by rw [r.szc]; exact wf.σ_lt hb' r.mle
-  refine ⟨?_, ?_, r.sza, r.ale, r.szo, r.ole, ?_, ?_, ?_⟩
+  refine ⟨?_, ?_, r.sza, r.ale, r.szo, r.ole, ?_, ?_, ?_, r.froz.set hb.1 va vb⟩
   · rw [Heap.size_set, Heap.size_set]; exact r.szc
   · rw [Heap.size_set]; exact r.mle
   · intro i hi
@@ -231,7 +367,7 @@ theorem allocArr {hA hB : Heap} (r : HR C hA hB) {w : Nat} {xa xb : Array CellId
     (hw : w ≤ hB.cells.size) :
     HR C (hA.allocArr xa).2 (hB.allocArr xb).2 ∧ (hA.allocArr xa).1 = (hB.allocArr xb).1 ∧
       C.a0 ≤ (hB.allocArr xb).1 := by
-  refine ⟨⟨r.szc, r.mle, ?_, ?_, r.szo, r.ole, r.cells, ?_, r.objs⟩, r.sza, r.ale⟩
+  refine ⟨⟨r.szc, r.mle, ?_, ?_, r.szo, r.ole, r.cells, ?_, r.objs, r.froz.allocArr xa xb⟩, r.sza, r.ale⟩
   · show (hA.arrs.push xa).size = (hB.arrs.push xb).size
     rw [Array.size_push, Array.size_push, r.sza]
   · show C.a0 ≤ (hB.arrs.push xb).size
@@ -246,7 +382,7 @@ theorem allocObj {hA hB : Heap} (r : HR C hA hB) {w : Nat} {xa xb : List (Bytes 
     (hx : MemR C w xa xb) (hw : w ≤ hB.cells.size) :
     HR C (hA.allocObj xa).2 (hB.allocObj xb).2 ∧ (hA.allocObj xa).1 = (hB.allocObj xb).1 ∧
       C.o0 ≤ (hB.allocObj xb).1 := by
-  refine ⟨⟨r.szc, r.mle, r.sza, r.ale, ?_, ?_, r.cells, r.arrs, ?_⟩, r.szo, r.ole⟩
+  refine ⟨⟨r.szc, r.mle, r.sza, r.ale, ?_, ?_, r.cells, r.arrs, ?_, r.froz.allocObj xa xb⟩, r.szo, r.ole⟩
   · show (hA.objs.push xa).size = (hB.objs.push xb).size
     rw [Array.size_push, Array.size_push, r.szo]
   · show C.o0 ≤ (hB.objs.push xb).size
@@ -257,9 +393,9 @@ theorem allocObj {hA hB : Heap} (r : HR C hA hB) {w : Nat} {xa xb : List (Bytes 
     · exact hx.mono hw
     · exact r.objs k hk
 
-theorem setArr {hA hB : Heap} (r : HR C hA hB) (a : ArrId) {w : Nat} {xa xb : Array CellId}
+theorem setArr {hA hB : Heap} (r : HR C hA hB) {a : ArrId} (ha : C.a0 ≤ a) {w : Nat} {xa xb : Array CellId}
     (hx : ArrR C w xa xb) (hw : w ≤ hB.cells.size) : HR C (hA.setArr a xa) (hB.setArr a xb) := by
-  refine ⟨r.szc, r.mle, ?_, ?_, r.szo, r.ole, r.cells, ?_, r.objs⟩
+  refine ⟨r.szc, r.mle, ?_, ?_, r.szo, r.ole, r.cells, ?_, r.objs, r.froz.setArr ha xa xb⟩
   · show (hA.arrs.setIfInBounds a xa).size = (hB.arrs.setIfInBounds a xb).size
     rw [Array.size_setIfInBounds, Array.size_setIfInBounds, r.sza]
   · show C.a0 ≤ (hB.arrs.setIfInBounds a xb).size
@@ -270,9 +406,9 @@ theorem setArr {hA hB : Heap} (r : HR C hA hB) (a : ArrId) {w : Nat} {xa xb : Ar
     · exact hx.mono hw
     · exact r.arrs k hk
 
-theorem setObj {hA hB : Heap} (r : HR C hA hB) (o : ObjId) {w : Nat} {xa xb : List (Bytes × CellId)}
+theorem setObj {hA hB : Heap} (r : HR C hA hB) {o : ObjId} (ho : C.o0 ≤ o) {w : Nat} {xa xb : List (Bytes × CellId)}
     (hx : MemR C w xa xb) (hw : w ≤ hB.cells.size) : HR C (hA.setObj o xa) (hB.setObj o xb) := by
-  refine ⟨r.szc, r.mle, r.sza, r.ale, ?_, ?_, r.cells, r.arrs, ?_⟩
+  refine ⟨r.szc, r.mle, r.sza, r.ale, ?_, ?_, r.cells, r.arrs, ?_, r.froz.setObj ho xa xb⟩
   · show (hA.objs.setIfInBounds o xa).size = (hB.objs.setIfInBounds o xb).size
     rw [Array.size_setIfInBounds, Array.size_setIfInBounds, r.szo]
   · show C.o0 ≤ (hB.objs.setIfInBounds o xb).size
@@ -467,7 +603,7 @@ theorem setMember_rel (wf : C.WF) {hA hB : Heap} (r : HR C hA hB) {w : Nat} {v :
             have hlt : i < (fillNulls (i + 1 - (hB.arr a).size) hB (hB.arr a)).2.size := by
               rw [hsz]; omega
             have hitem := hx1.getD hlt
-            have r2 := r1.setArr a hx1 (Nat.le_refl _)
+            have r2 := r1.setArr (a := a) hv hx1 (Nat.le_refl _)
             have hsz2 : ∀ (h : Heap) (x : Array CellId), (h.setArr a x).cells.size = h.cells.size :=
               fun _ _ => rfl
             refine ⟨?_, ?_, ?_⟩
@@ -485,7 +621,7 @@ theorem setMember_rel (wf : C.WF) {hA hB : Heap} (r : HR C hA hB) {w : Nat} {v :
     have hsz2 : ∀ (h : Heap) (x : List (Bytes × CellId)), (h.setObj o x).cells.size = h.cells.size :=
       fun _ _ => rfl
     refine ⟨by rw [hsz2]; exact Nat.le_refl _, by rw [hsz2]; exact hc.mono hw, ?_⟩
-    exact r.setObj o (ho.objInsert _ (hc.mono hw)) (Nat.le_refl _)
+    exact r.setObj (o := o) hv (ho.objInsert _ (hc.mono hw)) (Nat.le_refl _)
   | _ => exact rfl
 
 end Sel
